@@ -12,10 +12,12 @@ package props
 // recursion, oversized field numbers and invalid dynamic regexes must end in an error value.
 
 import (
+	"context"
 	"encoding/json"
 	"fmt"
 	"io"
 	"math/rand"
+	"path/filepath"
 	"strings"
 
 	"github.com/benhoyt/goawk/interp"
@@ -38,6 +40,8 @@ type c02Case struct {
 	Comment   string   `json:"comment,omitempty"`
 	Header    bool     `json:"header,omitempty"`
 	Chunk     int      `json:"chunk,omitempty"` // deliver stdin in pieces of this size (0 = whole)
+	BadShell  bool     `json:"bad_shell,omitempty"` // commands are allowed but the configured shell does not exist: every start fails
+	DoneCtx   bool     `json:"done_ctx,omitempty"`  // commands are allowed, the run goes through ExecuteContext with a context that is already cancelled
 	WantError bool     `json:"want_error,omitempty"`
 }
 
@@ -79,6 +83,14 @@ func (cs *c02Case) config() *interp.Config {
 	if cs.OutMode != 0 {
 		cfg.CSVOutput = interp.CSVOutputConfig{Separator: firstRune(cs.Sep)}
 	}
+	if cs.BadShell {
+		cfg.NoExec = false
+		cfg.ShellCommand = []string{"/nonexistent/verif-no-such-shell", "-c"}
+	}
+	if cs.DoneCtx {
+		cfg.NoExec = false
+		cfg.ShellCommand = []string{filepath.Join(core.BuildDir, "vsh")}
+	}
 	if cs.Chunk > 0 {
 		cfg.Stdin = &chunkReader{data: cs.Stdin, n: cs.Chunk}
 	} else {
@@ -113,7 +125,13 @@ func c02Check(c *core.Ctx, cs c02Case) {
 			ip.ResetVars() // variables start over; caches (regexes, formats) and buffers carry over
 		}
 		cfg := cs.config()
-		o := run.Exec(prog, cfg, run.Opts{StepLimit: 400000, Interp: ip})
+		opts := run.Opts{StepLimit: 400000, Interp: ip}
+		if cs.DoneCtx {
+			ctx, cancel := context.WithCancel(context.Background())
+			cancel()
+			opts.Ctx = ctx
+		}
+		o := run.Exec(prog, cfg, opts)
 		c.Eval(1)
 		if o.Panic != "" {
 			c.Violation("panic", "exec:"+run.PanicSite(o.Panic), fmt.Sprintf("Execute panicked (run %d on the interpreter): %s", round+1, run.PanicSite(o.Panic)), "status or error", o.Panic, cs)
@@ -447,6 +465,12 @@ func init() {
 					c02Check(c, cs)
 				}
 			})
+			for i, cs := range c02BrokenShell() {
+				if c.Mine(i) {
+					c02Check(c, cs)
+					c.Count("gen_broken-shell", 1)
+				}
+			}
 			progs := corpus.All()
 			total := n(c.Tier, 22000, 600000) / c.NBatches
 			for i := 0; i < total; i++ {
@@ -469,4 +493,28 @@ func init() {
 			c02Check(c, cs)
 		},
 	})
+}
+
+// c02BrokenShell: programs that start commands in every way the language has, under a
+// configuration in which no command can be started (the shell does not exist; or the context of
+// the call is already done). A start that fails is a status or an error for the program - also
+// when the name is used again, closed, flushed, or simply left to the end of the run.
+func c02BrokenShell() []c02Case {
+	bodies := []string{
+		`"cmd" | getline; print "after"`, `"cmd" | getline x; print x; close("cmd")`, `r = ("cmd" | getline x); print r`, `print "a" | "cmd"; close("cmd")`, `print "a" | "cmd"`,
+		`x = system("cmd"); print x`, `"cmd" | getline a; "cmd" | getline b; print a b`, `while (("cmd" | getline l) > 0) n++; print n`, `"cmd" | getline; print "x" | "cmd"; close("cmd")`,
+		`printf "x" | "cmd"; fflush("cmd"); fflush()`, `"cmd" | getline; "cmd2" | getline; close("cmd2"); close("cmd")`, `"cmd" | getline $2; print NF`, `"cmd" | getline A[1]; print length(A)`,
+		`close("cmd"); "cmd" | getline; close("cmd"); "cmd" | getline`, `for (i = 0; i < 40; i++) ("cmd" i) | getline v[i]`, `print "a" | "cmd"; "cmd" | getline q`, `"cmd" | getline; exit 3`, `"cmd" | getline; $(-1) = 1`,
+		`print "z" > "/dev/stderr"; "cmd" | getline; system("")`, `system("cmd"); "cmd" | getline; print "p" | "cmd"; system("cmd")`,
+	}
+	wraps := []string{"BEGIN { %B }", "{ %B }", "END { %B }", "function f() { %B }\nBEGIN { f(); f() }", "BEGIN { %B }\nEND { %B }"}
+	var out []c02Case
+	for _, b := range bodies {
+		for _, w := range wraps {
+			src := strings.ReplaceAll(w, "%B", b) + "\n"
+			out = append(out, c02Case{Gen: "broken-shell", Src: src, Stdin: []byte("r1 a\nr2 b\n"), BadShell: true})
+			out = append(out, c02Case{Gen: "broken-shell", Src: src, Stdin: []byte("r1 a\nr2 b\n"), DoneCtx: true})
+		}
+	}
+	return out
 }
